@@ -438,11 +438,24 @@ MemoRequest ==
 NormalEqs(C, V) ==
   LET n == Npts(V) Z == Curve(V, Const(n, Zero), <<>>) IN
   [rhs |-> ResidualMoments(C, Z, V), gram |-> [j \in 1..n |-> ResidualMoments(Curve(V, Unit(n, j), <<>>), Z, V)]]
+(* single-span (Bezier) source of degree p and target of degree q on [a, a + h]: the integrals of products of Bernstein   *)
+(* polynomials are closed forms, h C(p,i) C(q,j) / ((p+q+1) C(p+q,i+j)), at ANY degree (the quadrature constants of   *)
+(* Approx.tla stop at degree 9).  The three tables travel with the transition; the harness forms G Q = b and the error  *)
+RECURSIVE Binom(_, _)
+Binom(n, k) == IF k = 0 THEN 1 ELSE (Binom(n, k - 1) * (n - k + 1)) \div k
+BernInt(p, i, q, j, h) == Mul(h, Q(Binom(p, i) * Binom(q, j), (p + q + 1) * Binom(p + q, i + j)))
+BernTable(p, q, h) == [i \in 1..(p + 1) |-> [j \in 1..(q + 1) |-> BernInt(p, i - 1, q, j - 1, h)]]
+IsBezierKV(U) == Len(Knots(U)) = 2
+BezierNormalEqs(C, V) ==
+  LET p == Deg(C.U) q == Deg(V) h == Sub(Umax(V), Umin(V)) IN
+  [closed_form |-> TRUE, gram |-> BernTable(q, q, h), cross |-> BernTable(p, q, h), self |-> BernTable(p, p, h)]
 CvFitCurve ==
   \E a \in ArgsOf("CvFitCurve", heap, depth) :
      Step([name |-> "CvFitCurve"] @@ a, heap,
           RetRel("ok", IF a.nodes = <<>> /\ heap[a.obj].W = <<>> /\ a.other.W = <<>>
-                       THEN NormalEqs(a.other, heap[a.obj].U) ELSE <<>>, "sem"))
+                       THEN (IF IsBezierKV(a.other.U) /\ IsBezierKV(heap[a.obj].U) /\ Deg(a.other.U) + Deg(heap[a.obj].U) > 8
+                             THEN BezierNormalEqs(a.other, heap[a.obj].U) ELSE NormalEqs(a.other, heap[a.obj].U))
+                       ELSE <<>>, "sem"))
 CvFitInRational ==   \* S.fit_curve(q) with S rational and q in S's space: the result is q as a function, error 0
   \E a \in ArgsOf("CvFitInRational", heap, depth) :
      Step([name |-> "CvFitInRational"] @@ a, heap, RetRel("ok", <<>>, "sem"))
